@@ -71,7 +71,7 @@ func (e *EvalError) Error() string {
 }
 
 func New(pkgs ...*packages.Package) *Interp {
-	it := &Interp{Pkgs: pkgs, decls: map[*types.Func]*declInfo{}, Natives: map[string]func(*Interp, []Value) ([]Value, error){}, Methods: map[string]func(*Interp, Value, []Value) ([]Value, error){}, Globals: map[types.Object]Value{}, MaxSteps: 4000000}
+	it := &Interp{Pkgs: pkgs, decls: map[*types.Func]*declInfo{}, Natives: map[string]func(*Interp, []Value) ([]Value, error){}, Methods: map[string]func(*Interp, Value, []Value) ([]Value, error){}, Globals: map[types.Object]Value{}, MaxSteps: 400000}
 	for _, p := range pkgs {
 		for _, f := range p.Syntax {
 			for _, d := range f.Decls {
@@ -1704,6 +1704,9 @@ func (it *Interp) binop(e *env, n ast.Node, op token.Token, l, r Value) (Value, 
 		}
 		switch op {
 		case token.ADD:
+			if len(a)+len(b) > 1<<20 {
+				return nil, it.errAt(e, n, "evaluation budget exhausted (a string grows without bound)")
+			}
 			return a + b, nil
 		case token.LSS:
 			return a < b, nil
